@@ -465,7 +465,7 @@ func ruleReduceStripsAll(w *World, r *RuleResult) {
 }
 
 func init() {
-	register(&Rule{ID: "C06.R10", Min: 3,
+	register(&Rule{ID: "C06.R10", Min: 2,
 		Text: "a failed exponent check leaves no hybrid value: setExponent does not store the exponent when it returns a System* condition, so at each call either the receiver's Exponent was already defined by this invocation (a dominating whole-value write or Exponent store), or every path from the call to a return tests the result for both System flags and takes the no-failure edges, or overwrites the receiver with a whole value — otherwise the destination keeps the new coefficient with its previous exponent and depends on what it held before (and on aliasing)",
 		Run:  ruleNoHybridAfterSystem})
 }
@@ -579,42 +579,18 @@ func ruleNoHybridAfterSystem(w *World, r *RuleResult) {
 				case *ssa.Panic:
 					return
 				case *ssa.If:
-					bit := 0
-					if c, ok := y.Cond.(*ssa.Call); ok && len(c.Common().Args) > 0 && derives(c.Common().Args[0]) {
-						switch w.calleeName(c) {
-						case "(Condition).SystemOverflow":
-							bit = 1
-						case "(Condition).SystemUnderflow":
-							bit = 2
-						}
-					}
-					clearEdge := -1 // the successor on which res&(SystemOverflow|SystemUnderflow) is known to be 0
-					if bo, ok := y.Cond.(*ssa.BinOp); ok && (bo.Op == token.NEQ || bo.Op == token.EQL) {
-						for _, pair := range [][2]ssa.Value{{bo.X, bo.Y}, {bo.Y, bo.X}} {
-							and, ok := pair[0].(*ssa.BinOp)
-							zero, ok2 := pair[1].(*ssa.Const)
-							if !ok || !ok2 || and.Op != token.AND || zero.Value == nil || zero.Int64() != 0 {
-								continue
-							}
-							for _, q := range [][2]ssa.Value{{and.X, and.Y}, {and.Y, and.X}} {
-								k, ok := q[1].(*ssa.Const)
-								if ok && k.Value != nil && derives(q[0]) && uint64(k.Int64())&sysBoth == sysBoth && sysBoth != 0 {
-									if bo.Op == token.NEQ {
-										clearEdge = 1
-									} else {
-										clearEdge = 0
-									}
-								}
-							}
+					bit, clearSucc := 0, -1
+					if tv, bits, tms, ok := w.systemTest(y.Cond); ok && derives(tv) {
+						bit = bits
+						clearSucc = 1 // the false edge clears the bits when a true outcome means "set"
+						if !tms {
+							clearSucc = 0
 						}
 					}
 					for si, succ := range b.Succs {
 						m := mask
-						if si == 1 {
+						if si == clearSucc {
 							m |= bit
-						}
-						if si == clearEdge {
-							m = 3
 						}
 						if m == 3 {
 							continue // both flags known clear: the exponent was stored
@@ -634,7 +610,16 @@ func ruleNoHybridAfterSystem(w *World, r *RuleResult) {
 				}
 			}
 		}
-		visit(s.Block(), instrIndex(s)+1, 0)
+		// only the System* flags the callee has a constant for can come back from it
+		start := 3
+		if g := callee(s); g != nil {
+			for _, u := range w.condConstUses(g) {
+				if u.bits < 1<<12 {
+					start &^= int(u.bits & 3)
+				}
+			}
+		}
+		visit(s.Block(), instrIndex(s)+1, start)
 		if badRet == nil {
 			r.ok(key, w.instrPos(s), "every path from the call to a return either takes the edges on which both System flags are clear or overwrites the receiver with a whole value", true)
 		} else {
@@ -717,22 +702,18 @@ func (w *World) overwritesOnSystem(g *ssa.Function) bool {
 		return false
 	}
 	d := ssa.Value(g.Params[0])
-	seen := map[string]bool{}
+	seenBits := 0
 	for _, b := range g.Blocks {
 		iff, ok := b.Instrs[len(b.Instrs)-1].(*ssa.If)
 		if !ok {
 			continue
 		}
-		c, ok := iff.Cond.(*ssa.Call)
-		if !ok || len(c.Common().Args) == 0 {
-			continue
-		}
-		n := w.calleeName(c)
-		if n != "(Condition).SystemOverflow" && n != "(Condition).SystemUnderflow" {
+		tv, sbits, tms, ok := w.systemTest(iff.Cond)
+		if !ok {
 			continue
 		}
 		derives := false
-		w.exprOf(g, c.Common().Args[0]).walk(func(e *Expr) bool {
+		w.exprOf(g, tv).walk(func(e *Expr) bool {
 			if e.V == ssa.Value(cp) {
 				derives = true
 			}
@@ -740,6 +721,10 @@ func (w *World) overwritesOnSystem(g *ssa.Function) bool {
 		})
 		if !derives {
 			continue
+		}
+		setSucc := b.Succs[0]
+		if !tms {
+			setSucc = b.Succs[1]
 		}
 		// every path from the true successor to a return passes a whole-value write of d
 		okAll := true
@@ -763,12 +748,12 @@ func (w *World) overwritesOnSystem(g *ssa.Function) bool {
 				visit(s)
 			}
 		}
-		visit(b.Succs[0])
+		visit(setSucc)
 		if okAll {
-			seen[n] = true
+			seenBits |= sbits
 		}
 	}
-	return seen["(Condition).SystemOverflow"] && seen["(Condition).SystemUnderflow"]
+	return seenBits == 3
 }
 
 // coeffRewrittenBefore: some path reaches the setExponent call `at` with the receiver's coefficient written
